@@ -51,6 +51,10 @@ def expr(op):
         return "(reverse %s %s)" % (k, x)
     if n == "insert-index":
         return "(insert-index %s %s %d %s)" % (k, x, op["i"], arg(op["ints"][0]))
+    if n == "zip":
+        return "(zip %s %s %s)" % (k, x, y)
+    if n == "insert-sorted":
+        return "(insert-sorted %s %s < %s)" % (k, x, arg(op["ints"][0]))
     if n == "map":
         return "(map %s identity %s)" % (k, x)
     if n in ("select", "reject"):
